@@ -73,6 +73,8 @@ def shards(tier: str, seed: int):
     for b in bm.bases(seed, tier):
         if "/long" not in b.bid and (tier == "thorough" or "/nonce/" in b.bid):
             out.append(["algsub", b.bid])
+        if "/nonce/" in b.bid and "/env" in b.bid and "/long" not in b.bid:
+            out.append(["splice", b.bid])
         if "/nonce/" in b.bid:
             out.append(["forge", b.bid])
             out.append(["forge-hist", b.bid])
@@ -232,9 +234,48 @@ def algsub_mutations(blob: bytes):
                         yield ["algsub", name, fname, where - n, v], cms.encode(b._replace(content_alg=oid, content_params=params, enc_content=bytes(ct)))
 
 
+def gkdi_B() -> int:
+    from ref import gkdi
+
+    return gkdi.B
+
+
 def run_shard(shard, tier, seed, acc) -> None:
     worker_init()
     _hist_cache["cache"] = None
+    if shard[0] == "splice":
+        # blobs produced by the library itself in ONE process (same SID, different plaintexts): parts of one transplanted into another
+        import dpapi_ng
+        from ref import cms
+
+        base0 = bm.base_by_id(seed, shard[1])
+        ft = (bm.POS[0] * 1024 + bm.POS[1] * 32 + bm.POS[2]) * gkdi_B() + 5
+        pts = [b"plaintext-A", b"plaintext-B!", b"plaintext-C?!"]
+        blobs = []
+        with seams.clock(ft):
+            cache = seams.make_cache(base0.rk)
+            for i_, pt in enumerate(pts):
+                if i_ % 2 == 0:
+                    blobs.append(bytes(dpapi_ng.ncrypt_protect_secret(pt, bm.SID, root_key_identifier=base0.rk.rkid, cache=cache)))
+                else:
+                    from mc import vloop
+
+                    blobs.append(bytes(vloop.run(dpapi_ng.async_ncrypt_protect_secret(pt, bm.SID, root_key_identifier=base0.rk.rkid, cache=cache))))
+        n = 0
+        for ia, ib in itertools.permutations(range(len(pts)), 2):
+            A, Bb = cms.decode(blobs[ia]), cms.decode(blobs[ib])
+            base = bm.Base(base0.bid, base0.rk, blobs[ia], pts[ia])
+            for what, repl in (("content", dict(enc_content=Bb.enc_content)), ("content+params", dict(enc_content=Bb.enc_content, content_params=Bb.content_params)), ("params", dict(content_params=Bb.content_params)),
+                               ("enc_cek", dict(enc_cek=Bb.enc_cek)), ("content+params+enc_cek", dict(enc_content=Bb.enc_content, content_params=Bb.content_params, enc_cek=Bb.enc_cek)), ("keyid", dict(keyid=Bb.keyid))):
+                for in_env in (True, False):
+                    label = ["splice", ia, ib, what, in_env]
+                    oc = judge(acc, base, label, cms.encode(A._replace(in_envelope=in_env, **repl)), [], "async" if n % 2 else "sync")
+                    acc.outcome("splice:" + oc.split(":")[0])
+                    n += 1
+        acc.ev(n)
+        acc.nt_counted(n)
+        acc.sample({"blobs protected by the library in one process": len(pts), "transplants": ["content", "content+params", "params", "enc_cek", "content+params+enc_cek", "keyid"]})
+        return
     if shard[0] == "algsub":
         base0 = bm.base_by_id(seed, shard[1])
         n = 0
@@ -373,6 +414,14 @@ def replay(case, seed, acc) -> None:
         judge(acc, base, label, bm.apply_simple(base.blob, label), [], api)
         return
     base = bm.base_by_id(seed, bid)
+    if label[0] == "splice":
+        run_shard(["splice", bid], "quick", seed, acc)
+        for kk in list(acc.violations):
+            acc.violations[kk] = [e for e in acc.violations[kk] if e["case"][2][:5] == list(label)[:5]]
+            if not acc.violations[kk]:
+                del acc.violations[kk]
+        acc.violation_count = sum(len(v) for v in acc.violations.values())
+        return
     if label[0] == "algsub":
         base = aligned_base(base, label[-1])
         for lab, data in algsub_mutations(base.blob):
